@@ -1581,6 +1581,49 @@ pub(crate) mod verif_local {
         seg.remove_alias()
     }
 
+    /// The fields of a top-level `UseTree` beside `path` that the merging code consults:
+    /// `visibility`, `attrs`, `contains_comment()`.
+    pub(crate) fn facts(tree: &UseTree) -> (Option<&ast::Visibility>, Option<&ast::AttrVec>, bool) {
+        (
+            tree.visibility.as_ref(),
+            tree.attrs.as_ref(),
+            tree.contains_comment(),
+        )
+    }
+
+    fn shared_prefix(sp: u8) -> SharedPrefix {
+        match sp {
+            0 => SharedPrefix::Crate,
+            1 => SharedPrefix::Module,
+            _ => SharedPrefix::One,
+        }
+    }
+
+    /// `UseTree::flatten`
+    pub(crate) fn flatten(tree: UseTree, granularity: ImportGranularity) -> Vec<UseTree> {
+        tree.flatten(granularity)
+    }
+
+    /// `UseTree::nest_trailing_self`
+    pub(crate) fn nest_trailing_self(tree: UseTree) -> UseTree {
+        tree.nest_trailing_self()
+    }
+
+    /// `a.share_prefix(b, sp)` with `sp`: 0 `Crate`, 1 `Module`, 2 `One`.
+    pub(crate) fn share_prefix(a: &UseTree, b: &UseTree, sp: u8) -> bool {
+        a.share_prefix(b, shared_prefix(sp))
+    }
+
+    /// `a.merge(b, sp)`
+    pub(crate) fn merge(a: &mut UseTree, b: &UseTree, sp: u8) {
+        a.merge(b, shared_prefix(sp))
+    }
+
+    /// `merge_use_trees_inner(trees, tree, sp)`
+    pub(crate) fn merge_inner(trees: &mut Vec<UseTree>, tree: UseTree, sp: u8) {
+        merge_use_trees_inner(trees, tree, shared_prefix(sp))
+    }
+
     /// `UseTree::from_ast` with the arguments of `from_ast_with_normalization`, not normalised.
     pub(crate) fn from_ast_raw(context: &RewriteContext<'_>, item: &ast::Item) -> Option<UseTree> {
         match item.kind {
